@@ -111,6 +111,9 @@ def primaries_frame(chk):
                {"scope": sc}, what=f"IsExpressionStatement.scope is {sc}: its contract assumes a non-empty history")
 
 
+LAST_RESULTS = []
+
+
 def bounded_segments(chk, seed, thorough):
     rnd = random.Random(seed)
     cases = []
@@ -147,6 +150,7 @@ def bounded_segments(chk, seed, thorough):
                           ("" if tail else " (last statement of the body)")})
     t0 = time.time()
     res = native_batch([{"op": "segments", "text": c["text"], "name": c["name"]} for c in cases])
+    LAST_RESULTS[:] = res
     fails = []
     for c, r in zip(cases, res):
         m = None
@@ -180,6 +184,12 @@ def bounded_segments(chk, seed, thorough):
                          f"{c['want']} by construction")
                 elif r["scope_end"] != "GlobalScope":
                     m = f"nesting depth is not back at file level after a body made of [{c['shape']}] ({r['scope_end']})"
+            if m is None and c["kind"] in ("conforming", "counted") and not r["fatal"]:
+                for (ln, scope_after, closes) in r.get("depth", []):
+                    if closes and scope_after != "GlobalScope":
+                        m = (f"after the closing brace of a function (line {ln}) the nesting depth is not back at file "
+                             f"level: scope {scope_after}")
+                        break
             if m is None and c["kind"] == "unrecognisable" and not r["fatal"]:
                 m = (f"the unrecognisable statement {c['g']!r} inserted at line {c['at'] + 1} does not stop the run with a "
                      f"fatal diagnostic (status {r['status']}, diagnostics {r['errors'][:3]})")
@@ -200,6 +210,11 @@ def run(tier, seed, replay):
         if not task:
             print(json.dumps(rp.get("verifier_output"), indent=1)[:3000])
             return 1
+        if task.get("op") == "fatal_cli":
+            from .common import run_native
+            nat = run_native("cli_harness", {"op": "fatal_texts", "files": [(task["name"], task["text"])]}, timeout=120)
+            print(json.dumps(nat["violations"], indent=1)[:1500])
+            return 1 if nat["violations"] else 0
         r = native_batch([task])[0]
         print(json.dumps({k: r[k] for k in ("fatal", "exc", "status", "stdout", "errors")}, indent=1))
         bad = (not r["fatal"]) and r["status"] == "OK"
@@ -259,6 +274,30 @@ def run(tier, seed, replay):
                     "{statement boundaries} x {garbage lexemes}", len(cases), fails,
                     nontrivial=len({(c["kind"], c.get("g"), c.get("shape")) for c in cases}),
                     samples=[{"kind": c["kind"], "g": c.get("g")} for c in cases[1:4]], time_s=dt)
+    # "stops the run with a fatal diagnostic and non-zero status": the same fatal texts through
+    # the real command line (the exit status is decided in main(), not in Registry.run)
+    from .common import run_native
+    fatal_cases = [c for c, r in zip(cases, LAST_RESULTS) if r.get("fatal")]
+    picks, kinds = [], set()
+    for c in fatal_cases:
+        if c["kind"] not in kinds or len(picks) < 3:
+            kinds.add(c["kind"])
+            picks.append((c["name"], c["text"]))
+        if len(picks) >= (12 if thorough else 6):
+            break
+    if picks:
+        t0 = time.time()
+        nat = run_native("cli_harness", {"op": "fatal_texts", "files": picks}, timeout=600)
+        chk.add_bounded("norminette.__main__.main (real CLI in a subprocess)",
+                        "text that no rule recognises ends the run with the fatal diagnostic, no `OK!` and a non-zero "
+                        "exit status", f"{len(picks)} of the fatal inputs of the stand-in above", nat["cases"],
+                        nat["violations"], nontrivial=nat["cases"], time_s=time.time() - t0)
+        if nat["violations"] and not chk.has_unlisted_failure():
+            v = nat["violations"][0]
+            chk.report_violation("C07.bounded.fatal_exit_status",
+                                 {"property": "C07", "obligation": "C07.bounded.fatal_exit_status",
+                                  "replay": {"op": "fatal_cli", "text": v["text"], "name": v["name"]},
+                                  "confirmed_on_real_code": True}, what=v["what"], confirmed=True)
     explained = chk.has_unlisted_failure()
     if fails and not explained:
         c, m = fails[0]
